@@ -3,6 +3,7 @@ CONSTANTS
   MaxOffers = 100
   MaxCrash = 0
   Atomic = FALSE
+  Ucon = FALSE
   GenMode = "none"
 CONSTRAINT HighWater
 POSTCONDITION Accepted
